@@ -157,7 +157,11 @@ type Variant struct {
 	Env  []string
 	Args []string
 	Race bool
+	Skew bool // run by the vh-skew binary, whose time.Now() is shifted by VERIF_CLOCK_SKEW_SEC (see mkskew.py)
 }
+
+// SkewSelf is the path of the vh-skew binary ("" when it was not built).
+var SkewSelf string
 
 func Variants(tier string) []Variant {
 	v := []Variant{
@@ -165,6 +169,10 @@ func Variants(tier string) []Variant {
 		{Name: "gomaxprocs1-tz-mingas-iavlcache", Env: []string{"GOMAXPROCS=1", "TZ=Pacific/Kiritimati"}, Args: []string{"-mingas", "0.5loya", "-iavl", "1"}},
 		{Name: "goleveldb-pruning-everything", Env: []string{"GOMAXPROCS=16", "TZ=America/Anchorage"}, Args: []string{"-db", "goleveldb", "-pruning", "everything"}},
 	}
+	// "never depends on wall-clock time": replicas whose machine clock is ten years behind / ahead of the leader's (the
+	// block times in the recorded requests are the same, of course)
+	v = append(v, Variant{Name: "wall-clock-ten-years-behind", Skew: true, Env: []string{"VERIF_CLOCK_SKEW_SEC=-315360000", "TZ=Asia/Kathmandu"}},
+		Variant{Name: "wall-clock-ten-years-ahead", Skew: true, Env: []string{"VERIF_CLOCK_SKEW_SEC=315360000"}, Args: []string{"-iavl", "1"}})
 	if tier == "thorough" {
 		v = append(v, Variant{Name: "second-fresh-process-iavl-big", Env: []string{"GOMAXPROCS=4"}, Args: []string{"-iavl", "1000000", "-pruning", "nothing"}},
 			Variant{Name: "race-build", Race: true})
@@ -245,6 +253,13 @@ func RunDetCase(spec CaseSpec, self, raceSelf, dir string) (res CaseResult) {
 				continue
 			}
 		}
+		if v.Skew {
+			bin = SkewSelf
+			if bin == "" {
+				res.Inconclusive = "the replica with a shifted wall clock (vh-skew) was not built"
+				return
+			}
+		}
 		args := append([]string{"follow", "-file", file}, v.Args...)
 		cmd := exec.Command(bin, args...)
 		cmd.Env = append(os.Environ(), v.Env...)
@@ -255,6 +270,19 @@ func RunDetCase(spec CaseSpec, self, raceSelf, dir string) (res CaseResult) {
 			return
 		}
 		var got []HeightDigest
+		if v.Skew {
+			// harness sanity only (never part of the verdict on the application): the replica's clock was years away
+			var theirs int64
+			for _, line := range strings.Split(string(out), "\n") {
+				if strings.HasPrefix(line, "WALLCLOCK ") {
+					fmt.Sscanf(line[10:], "%d", &theirs)
+				}
+			}
+			if d := time.Now().Unix() - theirs; theirs == 0 || (d < 9*365*86400 && d > -9*365*86400) {
+				res.Inconclusive = "the wall clock of replica " + v.Name + " was not shifted"
+				return
+			}
+		}
 		for _, line := range strings.Split(string(out), "\n") {
 			if !strings.HasPrefix(line, "DIGEST ") {
 				continue
@@ -265,6 +293,9 @@ func RunDetCase(spec CaseSpec, self, raceSelf, dir string) (res CaseResult) {
 			}
 		}
 		st.Bucket("c01|replica|%s", v.Name)
+		if v.Skew {
+			st.Count("c01.replica-executions-under-a-shifted-wall-clock")
+		}
 		if len(got) != len(leader) {
 			c.Violate("C01", "replay", "follower-stopped-early:"+v.Name, map[string]interface{}{"got": len(got), "want": len(leader)})
 			continue
